@@ -4,7 +4,7 @@
 # in the change's meta.json (field final_sweep).  Sequential: it works in /repo itself.
 export GOFLAGS=-mod=mod GOPROXY=off GOSUMDB=off GOTOOLCHAIN=local
 cd /verif || exit 1
-declare -A extra=( [C12-4]="C18" [C14-3]="C15" [C14-5]="C16" [C01-6]="C20" [C10-3]="C09" [C01-8]="C20" [C11-9]="C02" [C01-11]="C10" [C12-12]="C08" [C03-12]="C07 C11" [C07-9]="C08" [C10-9]="C08" [C13-9]="C05" )
+declare -A extra=( [C12-4]="C18" [C14-3]="C15" [C14-5]="C16" [C01-6]="C20" [C10-3]="C09" [C01-8]="C20" [C11-9]="C02" [C01-11]="C10" [C12-12]="C08" [C03-12]="C07 C11" [C07-9]="C08" [C10-9]="C08" [C13-9]="C05" [C02-14]="C19" [C03-14]="C07" [C05-13]="C10" [C10-13]="C05" [C13-13]="C11" )
 list="$@"; [ -z "$list" ] && list=$(ls seeded | grep '^C[0-9][0-9]-[0-9]*$' | sort -V)
 for m in $list; do
   d=seeded/$m; p=${m%-*}
